@@ -175,6 +175,16 @@ impl Tree {
         }
         std::fs::create_dir_all(root.join("cwd"))?;
         if arr.b_kind == 10 {
+            // the same earlier history for the copies in the working directory, reached through
+            // the path as written
+            let _ = std::env::set_current_dir(root.join("cwd"));
+            for f in 0..arr.presence.len() {
+                std::fs::write(root.join("cwd").join(FILES[f]), format!("/* {} */\nint stale_cwd_{} = nosuch_stale;\n", "earlier contents ".repeat(40), f))?;
+                let main = format!("include \"{}\";\n", FILES[f]);
+                let none: Vec<PathBuf> = Vec::new();
+                let _ = catch(move || parse_source_string_with_path_search(main.as_str(), Some("earlier.qasm"), Some(none.as_slice())).any_syntax_errors());
+            }
+            let _ = std::env::set_current_dir(crate::verif_root());
             for f in 0..arr.presence.len() {
                 std::fs::write(root.join("cwd").join(FILES[f]), content(f, CWD, 10))?;
             }
